@@ -152,6 +152,28 @@ func (idx *hybridSearchIndex) addInternal(id uint32, vector []float32, text stri
 		}
 	}
 
+	// Adding an ID that is still live replaces the document (as the text index
+	// does on its own): drop the old content from every sub-index first, so that
+	// no part of it outlives the new content or a later Remove.
+	if old, exists := idx.docInfo[id]; exists {
+		if old.hasVector && idx.vectorIndex != nil {
+			if err := idx.vectorIndex.Remove(*NewVectorNodeWithID(id, nil)); err != nil {
+				return fmt.Errorf("failed to replace in vector index: %w", err)
+			}
+		}
+		if old.hasText && idx.textIndex != nil {
+			if err := idx.textIndex.Remove(id); err != nil {
+				return fmt.Errorf("failed to replace in text index: %w", err)
+			}
+		}
+		if old.hasMetadata && idx.metadataIndex != nil {
+			if err := idx.metadataIndex.Remove(*NewMetadataNodeWithID(id, nil)); err != nil {
+				return fmt.Errorf("failed to replace in metadata index: %w", err)
+			}
+		}
+		delete(idx.docInfo, id)
+	}
+
 	// Add to vector index
 	if idx.vectorIndex != nil && vector != nil && len(vector) > 0 {
 		vectorNode := NewVectorNodeWithID(id, vector)
